@@ -128,6 +128,8 @@ class Sim:
             for inst in program.get("instances", []):
                 cls = self.lookup(v, inst["cls"])
                 v.inst[inst["name"]] = cls(inst["name"], inst.get("key", 0))
+                # (also a global of the twin's module: actors may call methods on a named instance)
+                setattr(v.mod, "I_" + inst["name"], v.inst[inst["name"]])
             self.v[vn] = v
         sysv = self.v.get("sys")
         self.orig_code = {}
